@@ -104,6 +104,7 @@ const fn prof(name: &'static str, coll: &'static str, gen: &'static str) -> Prof
 const PROFILES: &[Profile] = &[
     prof("grow", "map", "grow"),
     prof("churn", "map", "churn"),
+    Profile { steps: Some(4000), ..prof("churn-long", "map", "churn") },
     prof("saturate", "map", "saturate"),
     prof("mixed", "map", "mixed"),
     prof("reserve", "map", "reserve"),
